@@ -45,7 +45,7 @@ def run(cfg):
                                                       'tools/zonedbpy/zone_infos.py', 'tools/zonedbpy/zone_policies.py']
     R.rule('R1', 'every rendering loop over a map iterates sorted(...); the files written for the tagged database do not depend on the insertion order of its maps', floor=25)
     R.rule('R2', 'every class-level template is formatted with all of its placeholders', floor=35)
-    R.rule('R3', 'InlineGenerator and PythonGenerator take every table key from the same source field; key sets equal the TypedDicts', floor=20)
+    R.rule('R3', 'the in-memory tables of InlineGenerator and the files of PythonGenerator carry the same value under every TypedDict key for every rule and era of the tagged database', floor=20)
     R.rule('R4', 'every count in the files written for the tagged database is the size of the collection its words name', floor=12)
     R.rule('R6', 'checked-in tools/zonedbpy: counts, map keys, policy references, entries == recorded lines; basic subset of extended', floor=1500)
     R.rule('R1-set', 'no order-dependent computation walks a set without sorted() anywhere on the compile path', floor=2)
@@ -438,47 +438,76 @@ def rendered_order(cfg, R):
 
 
 def inline_rule(cfg, R):
-    ing = py.load(cfg, 'tools/zonedb/ingenerator.py')
-    pyg = py.load(cfg, 'tools/zonedb/pygenerator.py')
+    """R3 by interpretation (E-SEQ over the Python ast): InlineGenerator.generate_maps() builds its in-memory tables from the
+    tagged database (whose truncated and untruncated fields differ), PythonGenerator writes zone_policies.py / zone_infos.py
+    for the same database and the files are read back with the table reader; every rule and every era must carry the same
+    value under every key of the ZoneRule / ZoneEra TypedDicts on both sides (a policy reference by the policy it names)."""
+    from .pyeval import PyEval, Raised
+    from .genrender import tagged_db, generate_files
+    ev = PyEval(cfg)
+    ing = ev.module('tools/zonedb/ingenerator.py')
     zs = py.load(cfg, 'tools/zonedb/zone_specifier.py')
-    for tname, inline_fn, var, file_fn, template in (('ZoneRule', 'InlineGenerator._generate_policies', 'rule', 'PythonGenerator._generate_policy_item', 'ZONE_RULE_ITEM'),
-                                                     ('ZoneEra', 'InlineGenerator._generate_infos', 'era', 'PythonGenerator._generate_era_item', 'ZONE_ERA_ITEM')):
+    db = tagged_db('extended')
+    init = ing.fn('InlineGenerator.__init__')
+    gm = ing.fn('InlineGenerator.generate_maps')
+    kwargs = {}
+    for p_ in init.params[1:]:
+        if p_ not in db:
+            raise AnalysisError('%s: constructor parameter %s is not part of the tagged database' % (init.loc, p_))
+        kwargs[p_] = db[p_]
+    try:
+        obj = ev.instantiate(ing, 'InlineGenerator', kwargs=kwargs)
+        maps = ev.call(ing, 'InlineGenerator.generate_maps', recv=obj)
+        files = generate_files(cfg, 'python', db)
+    except Raised as r_:
+        R.instance('R3', 'ingenerator~pygenerator:tables', gm.loc)
+        R.violation('R3', 'ingenerator~pygenerator:tables', gm.loc, 'building the tables of the tagged database raises %s (%s)' % (r_.what, r_.loc))
+        return
+    if not (isinstance(maps, (tuple, list)) and len(maps) == 2 and all(isinstance(x, dict) for x in maps)):
+        raise AnalysisError('%s: generate_maps() does not return (zone_infos, zone_policies)' % gm.loc)
+    zinfos, zpols = maps
+    P = tables.PyTables(cfg, texts=files)
+    for tname, what in (('ZoneRule', 'rule'), ('ZoneEra', 'era')):
         keys = ing.typed_dict_keys(tname)
-        f1 = ing.fn(inline_fn)
-        d = None
-        for n in ast.walk(f1.node):
-            if isinstance(n, ast.Dict) and len(n.keys) >= len(keys) - 1 and all(isinstance(k, ast.Constant) for k in n.keys):
-                if set(k.value for k in n.keys) & set(keys):
-                    if len(n.keys) >= len(keys):
-                        d = n
-        if d is None:
-            raise AnalysisError('%s: dict literal building a %s not found' % (f1.loc, tname))
-        inline = {k.value: ast.unparse(v) for k, v in zip(d.keys, d.values)}
-        f2 = pyg.fn(file_fn)
-        call = None
-        for n in ast.walk(f2.node):
-            if isinstance(n, ast.Call) and isinstance(n.func, ast.Attribute) and n.func.attr == 'format' and ast.unparse(n.func.value) == 'self.' + template:
-                call = n
-        if call is None:
-            raise AnalysisError('%s: %s.format(...) not found' % (f2.loc, template))
-        filekw = {k.arg: ast.unparse(k.value) for k in call.keywords}
         c0 = 'ingenerator~pygenerator:%s:keys' % tname
-        R.instance('R3', c0, f1.loc)
-        if set(inline) != set(keys):
-            R.violation('R3', c0, ing.loc(d), 'InlineGenerator builds keys %s, TypedDict %s declares %s' % (sorted(inline), tname, sorted(keys)))
-        tv = pyg.class_consts.get('PythonGenerator.' + template)
-        tkeys = re.findall(r"'(\w+)':", tv.value) if isinstance(tv, ast.Constant) else []
-        if set(tkeys) != set(keys):
-            R.violation('R3', c0, pyg.loc(call), 'template %s writes keys %s, TypedDict %s declares %s' % (template, sorted(tkeys), tname, sorted(keys)))
+        R.instance('R3', c0, gm.loc)
+        pairs = []          # (where, in-memory record, file record)
+        if what == 'rule':
+            for pname, rules in db['rules_map'].items():
+                norm = normalize_name(pname)
+                mem = (zpols.get(norm) or {}).get('rules') if isinstance(zpols.get(norm), dict) else None
+                fil = P.rules.get('ZONE_RULES_' + norm)
+                if mem is None or fil is None or len(mem) != len(rules) or len(fil) != len(rules):
+                    R.violation('R3', c0, gm.loc, 'policy %s: %s rules in memory, %s in the generated file, %d in the database' % (
+                        pname, None if mem is None else len(mem), None if fil is None else len(fil), len(rules)))
+                    continue
+                pairs += [('%s rule %d' % (pname, i), m_, f_) for i, (m_, f_) in enumerate(zip(mem, fil))]
+        else:
+            for zname, eras in db['zones_map'].items():
+                norm = normalize_name(zname)
+                mem = (zinfos.get(zname) or {}).get('eras') if isinstance(zinfos.get(zname), dict) else None
+                fil = P.eras.get('ZONE_ERAS_' + norm)
+                if mem is None or fil is None or len(mem) != len(eras) or len(fil) != len(eras):
+                    R.violation('R3', c0, gm.loc, 'zone %s: %s eras in memory, %s in the generated file, %d in the database' % (
+                        zname, None if mem is None else len(mem), None if fil is None else len(fil), len(eras)))
+                    continue
+                pairs += [('%s era %d' % (zname, i), m_, f_) for i, (m_, f_) in enumerate(zip(mem, fil))]
+        badk = next(((w, sorted(m_), sorted(f_.cells if hasattr(f_, 'cells') else f_)) for w, m_, f_ in pairs
+                     if set(m_) != set(keys) or set(f_.cells if hasattr(f_, 'cells') else f_) != set(keys)), None)
+        if badk:
+            R.violation('R3', c0, gm.loc, '%s: InlineGenerator builds keys %s, the generated file has %s, TypedDict %s declares %s' % (badk[0], badk[1], badk[2], tname, sorted(keys)))
         for k in keys:
             c = 'ingenerator~pygenerator:%s.%s' % (tname, k)
-            R.instance('R3', c, ing.loc(d))
-            a, b = inline.get(k), filekw.get(k)
-            if k == 'zonePolicy':
-                continue    # object reference vs rendered name: compared by R6 on the checked-in tables
-            if a is None or b is None or a != b:
-                R.violation('R3', c, ing.loc(d), 'in-memory table takes %s from %s, the generated file from %s' % (k, a, b))
-        # slots of the cooked classes
+            R.instance('R3', c, gm.loc)
+            for w, m_, f_ in pairs:
+                a_ = m_.get(k) if isinstance(m_, dict) else None
+                b_ = f_.get(k) if hasattr(f_, 'get') else None
+                if k == 'zonePolicy':
+                    a_ = ('ZONE_POLICY_' + normalize_name(a_['name'])) if isinstance(a_, dict) and 'name' in a_ else a_
+                    b_ = b_.name if isinstance(b_, Ref) else b_
+                if a_ != b_:
+                    R.violation('R3', c, gm.loc, '%s: the in-memory table has %s = %r, the generated file %r' % (w, k, a_, b_))
+                    break
         cooked = tname + 'Cooked'
         if cooked in zs.classes:
             slots = zs.class_consts.get('%s.__slots__' % cooked)
